@@ -27,9 +27,10 @@ Known == {"nl.bsn", "nl.onderwijsnummer", "pl.nip", "pl.regon", "pt.nif", "dk.cv
           "ec.ruc", "es.ccc", "es.postal_code", "eu.ecnumber", "eu.oss", "gh.tin", "gn.nifp", "il.hp", "in_.aadhaar", "in_.vid",
           "in_.epic", "it.aic", "mc.tva", "nl.postcode", "nl.brin", "nl.identiteitskaartnummer", "no.kontonr", "pk.cnic",
           "ad.nrt", "bg.pnf", "do.ncf", "es.cae", "fi.ytunnus", "fr.nif", "gb.upn", "ie.vat", "pe.cui", "pt.cc", "ru.ogrn",
-          "se.postnummer", "se.vat", "si.maticna", "sm.coe", "sv.nit", "th.moa"}
+          "se.postnummer", "se.vat", "si.maticna", "sm.coe", "sv.nit", "th.moa",
+          "bg.egn", "cu.ni", "cz.rc", "sk.rc", "lt.asmens", "ro.cnp", "kr.rrn", "gr.amka", "is_.kennitala"}
 (* formats with further rules (dates, ranges) that are not transcribed: the checksum is only a NECESSARY condition *)
-Necessary == {"no.fodselsnummer", "fi.hetu", "ch.ssn", "lv.pvn", "pl.pesel", "ee.ik", "at.tin"}
+Necessary == {"no.fodselsnummer", "fi.hetu", "ch.ssn", "lv.pvn", "pl.pesel", "ee.ik", "at.tin", "dk.cpr", "za.idnr"}
 
 WRev(c, n, w) == Sum(LAMBDA i : w[i] * D(c[n + 1 - i]), n)      \* weights counted from the right over the first n characters
 LuhnSum(c) == Sum(LAMBDA i : IF (Len(c) - i) % 2 = 1 THEN DigitSum(2 * D(c[i])) ELSE D(c[i]), Len(c))
@@ -78,6 +79,19 @@ GbLaNumbers == {201, 202, 203, 204, 205, 206, 207, 208, 209, 210, 211, 212, 213,
 UpnAlphabet == <<65, 66, 67, 68, 69, 70, 71, 72, 74, 75, 76, 77, 78, 80, 81, 82, 84, 85, 86, 87, 88, 89, 90, 48, 49, 50, 51, 52, 53, 54, 55, 56, 57>>
 IeAlpha(ch) == ch = 87 \/ ch \in 65..86
 ThPinCheck(c) == (11 - (W(c, <<13, 12, 11, 10, 9, 8, 7, 6, 5, 4, 3, 2>>) % 11)) % 10
+NLeap(y) == (y % 4 = 0 /\ y % 100 # 0) \/ y % 400 = 0
+NDaysIn(y, mth) == IF mth = 2 THEN (IF NLeap(y) THEN 29 ELSE 28) ELSE IF mth \in {4, 6, 9, 11} THEN 30 ELSE 31
+NRealDate(y, mth, d) == mth \in 1..12 /\ d >= 1 /\ d <= NDaysIn(y, mth)
+Before(y, mth, d, y2, m2, d2) == y < y2 \/ (y = y2 /\ (mth < m2 \/ (mth = m2 /\ d < d2)))
+(* Czech / Slovak birth number *)
+RcOk(c) == /\ IsDigits(c) /\ Len(c) \in {9, 10}
+           /\ LET yy == NumOf(c, 1, 2)  mraw == NumOf(c, 3, 4)  dd == NumOf(c, 5, 6)
+                  mth == IF mraw > 70 THEN mraw - 70 ELSE IF mraw > 50 THEN mraw - 50 ELSE IF mraw > 20 THEN mraw - 20 ELSE mraw
+                  year == IF Len(c) = 9 THEN (IF yy >= 80 THEN 1800 + yy ELSE 1900 + yy) ELSE (IF yy >= 54 THEN 1900 + yy ELSE 2000 + yy)
+                  r == ModOf(SubSeq(c, 1, 9), 11)
+              IN /\ (Len(c) = 9 => year <= 1953)
+                 /\ NRealDate(year, mth, dd)
+                 /\ (Len(c) = 10 => (IF Before(year, mth, dd, 1985, 1, 1) THEN r % 10 ELSE r) = D(c[10]))
 EstonianCheck(c, n) ==        \* check digit over the first n digits: weights 1,2,..,9,1,.. and, when that gives 10, 3,4,..,9,1,2,..
   LET s1 == Sum(LAMBDA i : (((i - 1) % 9) + 1) * D(c[i]), n) % 11
       s2 == Sum(LAMBDA i : (((i + 1) % 9) + 1) * D(c[i]), n) % 11
@@ -377,6 +391,29 @@ AcceptN(m, c) ==
                           THEN (W(c, <<14, 13, 12, 11, 10, 9, 8, 7, 6, 5, 4, 3, 2>>) % 11) % 10 = D(c[14])
                           ELSE ((11 - (W(c, <<2, 7, 6, 5, 4, 3, 2, 7, 6, 5, 4, 3, 2>>) % 11)) % 11) % 10 = D(c[14])
     [] m = "th.moa" -> Len(c) = 13 /\ IsDigits(c) /\ c[1] = 48 /\ ThPinCheck(c) = D(c[13])
+    [] m = "bg.egn" -> /\ Len(c) = 10 /\ IsDigits(c) /\ (W(c, <<2, 4, 8, 5, 10, 9, 7, 3, 6>>) % 11) % 10 = D(c[10])
+                       /\ LET yy == NumOf(c, 1, 2)  mm == NumOf(c, 3, 4)
+                          IN IF mm > 40 THEN NRealDate(2000 + yy, mm - 40, NumOf(c, 5, 6))
+                             ELSE IF mm > 20 THEN NRealDate(1800 + yy, mm - 20, NumOf(c, 5, 6)) ELSE NRealDate(1900 + yy, mm, NumOf(c, 5, 6))
+    [] m = "cu.ni" -> /\ Len(c) = 11 /\ IsDigits(c)
+                      /\ NRealDate((IF c[7] = 57 THEN 1800 ELSE IF c[7] <= 53 THEN 1900 ELSE 2000) + NumOf(c, 1, 2), NumOf(c, 3, 4), NumOf(c, 5, 6))
+    [] m \in {"cz.rc", "sk.rc"} -> RcOk(c)
+    [] m = "lt.asmens" -> /\ Len(c) = 11 /\ IsDigits(c) /\ EstonianCheck(c, 10) = D(c[11])
+                          /\ (c[1] # 57 => (/\ c[1] \in 49..56
+                                            /\ NRealDate(1800 + 100 * ((D(c[1]) - 1) \div 2) + NumOf(c, 2, 3), NumOf(c, 4, 5), NumOf(c, 6, 7))))
+    [] m = "ro.cnp" -> /\ Len(c) = 13 /\ IsDigits(c) /\ c[1] # 48
+                       /\ NRealDate((CASE D(c[1]) \in {3, 4} -> 1800 [] D(c[1]) \in {5, 6} -> 2000 [] OTHER -> 1900) + NumOf(c, 2, 3), NumOf(c, 4, 5), NumOf(c, 6, 7))
+                       /\ NumOf(c, 8, 9) \in (1..48) \cup {51, 52}
+                       /\ LET r == W(c, <<2, 7, 9, 1, 4, 6, 3, 5, 8, 2, 7, 9>>) % 11 IN (IF r = 10 THEN 1 ELSE r) = D(c[13])
+    [] m = "kr.rrn" -> /\ Len(c) = 13 /\ IsDigits(c) /\ NumOf(c, 8, 9) <= 96
+                       /\ NRealDate((CASE D(c[7]) \in {1, 2, 5, 6} -> 1900 [] D(c[7]) \in {3, 4, 7, 8} -> 2000 [] OTHER -> 1800) + NumOf(c, 1, 2), NumOf(c, 3, 4), NumOf(c, 5, 6))
+                       /\ (11 - (W(c, <<2, 3, 4, 5, 6, 7, 8, 9, 2, 3, 4, 5>>) % 11)) % 10 = D(c[13])
+    [] m = "gr.amka" -> /\ Len(c) = 11 /\ IsDigits(c) /\ LuhnSum(c) % 10 = 0
+                        /\ (NRealDate(1900 + NumOf(c, 5, 6), NumOf(c, 3, 4), NumOf(c, 1, 2)) \/ NRealDate(2000 + NumOf(c, 5, 6), NumOf(c, 3, 4), NumOf(c, 1, 2)))
+    [] m = "is_.kennitala" -> /\ Len(c) = 10 /\ IsDigits(c) /\ D(c[1]) <= 7 /\ D(c[3]) <= 1 /\ c[10] \in {48, 57}
+                              /\ LET dd == NumOf(c, 1, 2)
+                                 IN NRealDate((IF c[10] = 57 THEN 1900 ELSE 2000) + NumOf(c, 5, 6), NumOf(c, 3, 4), IF dd >= 40 THEN dd - 40 ELSE dd)
+                              /\ W(c, <<3, 2, 7, 6, 5, 4, 3, 2, 1, 0>>) % 11 = 0
 
 (* checksum parts of formats with further rules *)
 NecessaryN(m, c) ==
@@ -391,5 +428,11 @@ NecessaryN(m, c) ==
                        /\ (c[1] > 51 => W(c, <<9, 1, 4, 8, 3, 10, 2, 5, 7, 6, 1>>) % 11 = 3)
     [] m = "ee.ik" -> Len(c) = 11 /\ IsDigits(c) /\ EstonianCheck(c, 10) = D(c[11])
     [] m = "at.tin" -> Len(c) = 9 /\ IsDigits(c) /\ (10 - (Sum(LAMBDA i : IF i % 2 = 0 THEN DigitSum(2 * D(c[i])) ELSE D(c[i]), 8) % 10)) % 10 = D(c[9])
+    [] m = "dk.cpr" -> /\ Len(c) = 10 /\ IsDigits(c)
+                       /\ LET yy == NumOf(c, 5, 6)  k == D(c[7])
+                              cent == IF k \in {5, 6, 7, 8} /\ yy >= 58 THEN 1800 ELSE IF k \in {0, 1, 2, 3} \/ (k \in {4, 9} /\ yy >= 37) THEN 1900 ELSE 2000
+                          IN NRealDate(cent + yy, NumOf(c, 3, 4), NumOf(c, 1, 2))
+    [] m = "za.idnr" -> /\ Len(c) = 13 /\ IsDigits(c) /\ LuhnSum(c) % 10 = 0 /\ c[11] \in {48, 49}
+                        /\ (NRealDate(1900 + NumOf(c, 1, 2), NumOf(c, 3, 4), NumOf(c, 5, 6)) \/ NRealDate(2000 + NumOf(c, 1, 2), NumOf(c, 3, 4), NumOf(c, 5, 6)))
     [] m = "pl.pesel" -> Len(c) = 11 /\ IsDigits(c) /\ (10 - (W(c, <<1, 3, 7, 9, 1, 3, 7, 9, 1, 3>>) % 10)) % 10 = D(c[11])
 =============================================================================
